@@ -131,7 +131,7 @@ func c18Property(t *rapid.T, st *Stats) {
 		}
 		for d, n := range bare {
 			if n > 1 {
-				fail("I3-untagged-once", "digest %s listed without annotations %d times", dn(d), n)
+				fail("I3-untagged-once", "digest %s listed %d times without a tag or subject", dn(d), n)
 			}
 		}
 		for _, tg := range c18Tags {
@@ -204,6 +204,16 @@ func c18Property(t *rapid.T, st *Stats) {
 			desc.Annotations = map[string]string{types.AnnotReferrerSubject: sj}
 			desc.MediaType = types.MediaTypeOCI1ManifestList
 		}
+		// an annotation of another tool (a layout written by containerd or buildkit carries such on its entries); the
+		// index "may lose" it, but an entry that has neither tag nor subject is an untagged listing whatever else it carries
+		other := ""
+		if rapid.IntRange(0, 4).Draw(t, "otherAnnotation") == 0 {
+			other = rapid.SampledFrom([]string{"2024", "2025"}).Draw(t, "created")
+			if desc.Annotations == nil {
+				desc.Annotations = map[string]string{}
+			}
+			desc.Annotations["org.opencontainers.image.created"] = other
+		}
 		opts := []types.IndexOpt{}
 		var kids []types.Descriptor
 		if rapid.IntRange(0, 2).Draw(t, "withChildren") == 0 {
@@ -218,7 +228,7 @@ func c18Property(t *rapid.T, st *Stats) {
 		for _, k := range kids {
 			ks += dn(k.Digest) + ","
 		}
-		trace = append(trace, fmt.Sprintf("AddDesc %s tag=%q subj=%.14s children=[%s]", dn(d), tg, sj, ks))
+		trace = append(trace, fmt.Sprintf("AddDesc %s tag=%q subj=%.14s created=%q children=[%s]", dn(d), tg, sj, other, ks))
 		mutations++
 		touch(d, "plain")
 		if tg != "" {
